@@ -106,3 +106,32 @@ pub fn lagrange<T: F>(xs: &[T], ys: &[T], z: &T) -> Vec<T> {
 pub fn polys_equal<T: F>(a: &[T], b: &[T]) -> bool {
     trim(a) == trim(b)
 }
+
+/// Euclidean division by definition (long division): returns (quotient, remainder) with
+/// a = q·b + r and deg r < deg b (trimmed vectors). `b` must not be the zero polynomial.
+pub fn divrem<T: F>(a: &[T], b: &[T], z: &T) -> (Vec<T>, Vec<T>) {
+    let b = trim(b);
+    assert!(!b.is_empty(), "reference division by the zero polynomial");
+    let mut r = trim(a);
+    let mut q = vec![z.zero(); a.len().max(1)];
+    let lb_inv = b[b.len() - 1].inv();
+    while r.len() >= b.len() {
+        let shift = r.len() - b.len();
+        let c = r[r.len() - 1].mul(&lb_inv);
+        q[shift] = q[shift].add(&c);
+        for (i, x) in b.iter().enumerate() {
+            r[shift + i] = r[shift + i].sub(&c.mul(x));
+        }
+        r = trim(&r);
+    }
+    (trim(&q), r)
+}
+
+/// Π (x − r_i), by repeated schoolbook multiplication.
+pub fn from_roots<T: F>(roots: &[T], z: &T) -> Vec<T> {
+    let mut p = vec![z.one()];
+    for r in roots {
+        p = mul(&p, &[z.zero().sub(r), z.one()], z);
+    }
+    p
+}
